@@ -351,13 +351,14 @@ def replay_state(st: dict, out: dict, want_event: bool) -> None:
                 expected.add("EngineError")
             if other.columns != rel.columns:
                 expected.add("ColumnError")
+        props = ["C20"] + (["C14"] if "EngineError" in expected else [])
         try:
             res = w.call(c, rel)
-            V(["C20"], "an ill-formed request returned a relation instead of raising", request=c,
+            V(props, "an ill-formed request returned a relation instead of raising", request=c,
               expected=sorted(expected), returned=str(res))
         except Exception as exc:  # noqa: BLE001
             if type(exc).__name__ not in expected:
-                V(["C20"], f"an ill-formed request raised {type(exc).__name__} instead of the documented class",
+                V(props, f"an ill-formed request raised {type(exc).__name__} instead of the documented class",
                   request=c, expected=sorted(expected), message=str(exc)[:200])
         if fingerprint(rel) != fp:
             V(["C20", "C09"], "a rejected request changed an existing relation", request=c)
